@@ -355,9 +355,16 @@ def files_mechanism(text: str, cfg: T.Mapping[str, T.Any], contracts: T.Set[str]
     return names
 
 
+def mlbackslash_mechanism(text: str, cfg: T.Mapping[str, T.Any], contracts: T.Set[str]) -> T.List[str]:
+    """The (repaired) defect changed the VALUE of a string: it shows in the tree / parse contracts (or as an exception on
+    the formatter's own output).  Replacing the literal also shifts the layout, so a layout-only second-pass difference that
+    happens to vanish says nothing about it and stays with the layout classifiers that follow."""
+    return ['multiline-string-simplified-changes-escapes'] if contracts - {'idempotent', 'final-newline'} else []
+
+
 DIFFERENTIAL: T.Tuple[T.Tuple[T.Callable[[str, T.Mapping[str, T.Any]], T.Any], T.Any], ...] = (
     (t_foreign, 'comment-split-at-non-lf-line-boundary'),
-    (t_mlbackslash, 'multiline-string-simplified-changes-escapes'),
+    (t_mlbackslash, mlbackslash_mechanism),
     (t_single_comma, 'single-argument-call-relayouted-on-second-pass'),
     (t_files, files_mechanism),
     (t_cont_after_open, 'continuation-after-open-bracket-relayouted-on-second-pass'),
